@@ -13,7 +13,8 @@
      copy shifted beyond all node ids of the program); blame: the name of the copy, Duplicate.
    - phrase replacements (Mini/Walk.v): the right-hand side of an assignment / return / initial value — or one
      element of it when it is an aggregate, positional or named, at any depth — replaced by a literal or an object
-     of a type that does not fit (TypeMismatch at it); one actual of a call replaced
+     of a type that does not fit, also inside an aggregate that is an operand of an operator; a choice of a case
+     statement replaced by the name of an object or of an enumeration literal of another type (TypeMismatch at it); one actual of a call replaced
      so that no overload fits, or the name of a subprogram used without an actual list, or a procedure call
      without its actuals / with another subprogram as callee (NoOverload at the callee); an association element dropped (MissingAssoc at the
      instantiated unit's name); `<=` and `:=` exchanged (KindMismatch at the target).
@@ -361,6 +362,7 @@ Definition dup_sites (p : program) : list nid :=
 Definition phrase_root (ph : phrase) : option expr :=
   match ph with
   | PStmt (SSig _ _ e) | PStmt (SVar _ _ e) | PStmt (SRet _ (Some e)) => Some e
+  | PStmt (SIf _ c _ _) | PStmt (SWhile _ c _) => Some c          (* the condition *)
   | PInit _ e => Some e
   | PConc (CAssign _ _ e) => Some e
   | _ => None
@@ -370,6 +372,8 @@ Definition set_root (e' : expr) (ph : phrase) : phrase :=
   | PStmt (SSig i t _) => PStmt (SSig i t e')
   | PStmt (SVar i t _) => PStmt (SVar i t e')
   | PStmt (SRet i (Some _)) => PStmt (SRet i (Some e'))
+  | PStmt (SIf i _ th el) => PStmt (SIf i e' th el)
+  | PStmt (SWhile i _ b) => PStmt (SWhile i e' b)
   | PInit ty _ => PInit ty e'
   | PConc (CAssign l t _) => PConc (CAssign l t e')
   | _ => ph
@@ -382,6 +386,7 @@ Definition root_type (i : pinfo) : option sty :=
   | PStmt (SVar _ t _) =>
       match check_target Exactly (pi_GE i) (pi_G i) KVar t with Ok ty => Some ty | Bad _ _ => None end
   | PStmt (SRet _ (Some _)) => match e_ret (pi_G i) with Some (Some t) => Some t | _ => None end
+  | PStmt (SIf _ _ _ _) | PStmt (SWhile _ _ _) => Some SBool
   | PInit ty _ => Some ty
   | _ => None
   end.
@@ -401,7 +406,8 @@ Inductive fsite :=
 | SArg (s : nid) (k : nat) (e : expr)      (* k-th actual of the call that is the root of phrase s    *)
 | SDrop (s : nid) (port : bool) (x : ident)(* association of formal x dropped from instantiation s     *)
 | SFlip (s : nid)                          (* signal assignment <-> variable assignment                *)
-| SStmt (s : nid) (st : stmt)              (* statement s := st (calls without actuals, wrong callee)  *)
+| SStmt (s : nid) (st : stmt) (n : nid)    (* statement s := st, to be blamed at node n (calls without
+                                              actuals, wrong callee, wrong-typed name as case choice)   *)
 | SRootAt (s : nid) (e : expr) (c : expr). (* root expression of phrase s := e, which is the old one with an
                                               element of an aggregate (at any depth) replaced by c      *)
 
@@ -427,12 +433,12 @@ Definition plant_phrase (st : fsite) (ph : phrase) : phrase :=
       | PStmt (SVar i t e) => PStmt (SSig i t e)
       | _ => ph
       end
-  | SStmt _ st' => match ph with PStmt _ => PStmt st' | _ => ph end
+  | SStmt _ st' _ => match ph with PStmt _ => PStmt st' | _ => ph end
   | SRootAt _ e _ => set_root e ph
   | _ => ph
   end.
 Definition site_nid (st : fsite) : nid :=
-  match st with SZap s | SDup s | SRoot s _ | SArg s _ _ | SDrop s _ _ | SFlip s | SStmt s _ | SRootAt s _ _ => s end.
+  match st with SZap s | SDup s | SRoot s _ | SArg s _ _ | SDrop s _ _ | SFlip s | SStmt s _ _ | SRootAt s _ _ => s end.
 
 Definition plant (st : fsite) (p : program) : program :=
   match st with
@@ -494,7 +500,7 @@ Definition expect_nid_at (st : fsite) (m : nid) (i : option pinfo) : nid :=
                   | _ => 0 end
       | None => 0
       end
-  | SStmt s st' => stmt_nid st'
+  | SStmt _ _ n => n
   | SRootAt _ _ c => head_nid c
   end.
 Definition expect_nid (st : fsite) (p : program) : nid :=
@@ -589,14 +595,17 @@ Definition sub_candidates (p : program) : list expr :=
 Definition call_candidates (p : program) (i : pinfo) : list fsite :=
   match pi_ph i with
   | PStmt (SCall g a) =>
-      (match a with ANil => [] | _ => [SStmt (pi_id i) (SCall g ANil)] end) ++
-      map (fun x => SStmt (pi_id i) (SCall (FId (Occ (o_nid (fname_occ g)) x)) a)) (fun_idents p)
+      (match a with ANil => [] | _ => [SStmt (pi_id i) (SCall g ANil) (o_nid (fname_occ g))] end) ++
+      map (fun x => SStmt (pi_id i) (SCall (FId (Occ (o_nid (fname_occ g)) x)) a) (o_nid (fname_occ g))) (fun_idents p)
   | _ => []
   end.
-(* all ways to replace one element of an aggregate, at any depth, by c *)
+(* all ways to replace one element of an aggregate (a complete context or an operand of an operator), at any depth, by c *)
 Fixpoint agg_variants (c : expr) (e : expr) {struct e} : list expr :=
   match e with
   | EAgg i els => map (EAgg i) (args_variants c els)
+  (* an aggregate that is an operand of an operator *)
+  | EBin i op l r => map (fun l' => EBin i op l' r) (agg_variants c l) ++ map (EBin i op l) (agg_variants c r)
+  | ENot i x => map (ENot i) (agg_variants c x)
   | _ => []
   end
 with args_variants (c : expr) (a : args) {struct a} : list args :=
@@ -610,8 +619,44 @@ Definition agg_candidates (cands : list expr) (i : pinfo) : list fsite :=
   | Some e => flat_map (fun c => map (fun e' => SRootAt (pi_id i) e' c) (agg_variants c e)) cands
   | None => []
   end.
+(* a case choice replaced by the name x (an object, or an enumeration literal of another type) *)
+Fixpoint choice_variants (c : cchoice) (cs : list cchoice) : list (list cchoice) :=
+  match cs with
+  | [] => []
+  | x :: r => (c :: r) :: map (cons x) (choice_variants c r)
+  end.
+Fixpoint calts_variants (c : cchoice) (a : calts) : list calts :=
+  match a with
+  | CANil => []
+  | CACons cs b r => map (fun cs' => CACons cs' b r) (choice_variants c cs) ++ map (CACons cs b) (calts_variants c r)
+  end.
+Definition choice_candidates (m : nid) (xs : list ident) (i : pinfo) : list fsite :=
+  match pi_ph i with
+  | PStmt (SCase k sel alts oth) =>
+      flat_map (fun x => map (fun alts' => SStmt (pi_id i) (SCase k sel alts' oth) m)
+                             (calts_variants (CCLit (Occ m x)) alts)) xs
+  | _ => []
+  end.
+Definition decl_lit_ids (ds : list decl) : list ident :=
+  flat_map (fun d => match d with DType _ (TDEnum lits) => map o_id lits | _ => [] end) ds.
+Fixpoint conc_lit_ids (c : conc) : list ident :=
+  match c with CBlock _ ds b => decl_lit_ids ds ++ concs_lit_ids b | _ => [] end
+with concs_lit_ids (c : concs) : list ident :=
+  match c with CNil => [] | CCons z r => conc_lit_ids z ++ concs_lit_ids r end.
+Definition lit_ids (p : program) : list ident :=
+  flat_map (fun l => flat_map (fun u =>
+    match u_body u with
+    | UPkg _ ds | UBody _ ds => decl_lit_ids ds
+    | UArch _ _ ds b => decl_lit_ids ds ++ concs_lit_ids b
+    | _ => []
+    end) (l_units l)) p.
 Definition root_phrases (p : program) : list pinfo :=
   filter (fun i => match phrase_root (pi_ph i) with Some _ => true | None => false end) (walk_program p).
+(* without the conditions of if / while: a condition of the wrong type is a different kind of error (no implicit
+   conversion to boolean); plants inside an aggregate of a condition are ordinary *)
+Definition is_condition (i : pinfo) : bool :=
+  match pi_ph i with PStmt (SIf _ _ _ _) | PStmt (SWhile _ _ _) => true | _ => false end.
+Definition value_root_phrases (p : program) : list pinfo := filter (fun i => negb (is_condition i)) (root_phrases p).
 Fixpoint seq_nat (n : nat) : list nat := match n with O => [] | S k => seq_nat k ++ [k] end.
 Fixpoint args_len (a : args) : nat := match a with ANil => O | ACons _ _ r => S (args_len r) end.
 
@@ -629,10 +674,12 @@ Definition site_candidates (f : fclass) (p : program) : list fsite :=
   | FUnknownArch => map SZap (occs_of_kind OArch p)
   | FUnknownFormal => map SZap (occs_of_kind OFormal p)
   | FDuplicate => map SDup (dup_sites p)
-  | FWrongLiteral => flat_map (fun i => map (SRoot (pi_id i)) (lit_candidates p)) (root_phrases p) ++
-                     flat_map (agg_candidates (lit_candidates p)) (root_phrases p)
-  | FWrongObject => flat_map (fun i => map (SRoot (pi_id i)) (obj_candidates p)) (root_phrases p) ++
-                    flat_map (agg_candidates (obj_candidates p)) (root_phrases p)
+  | FWrongLiteral => flat_map (fun i => map (SRoot (pi_id i)) (lit_candidates p)) (value_root_phrases p) ++
+                     flat_map (agg_candidates (lit_candidates p)) (root_phrases p) ++
+                     flat_map (choice_candidates (fresh_nid p) (lit_ids p)) (walk_program p)
+  | FWrongObject => flat_map (fun i => map (SRoot (pi_id i)) (obj_candidates p)) (value_root_phrases p) ++
+                    flat_map (agg_candidates (obj_candidates p)) (root_phrases p) ++
+                    flat_map (choice_candidates (fresh_nid p) (obj_idents p)) (walk_program p)
   | FNoOverload =>
       flat_map (fun i =>
         match phrase_root (pi_ph i) with
@@ -640,7 +687,7 @@ Definition site_candidates (f : fclass) (p : program) : list fsite :=
             flat_map (fun k => map (SArg (pi_id i) k) (lit_candidates p ++ obj_candidates p)) (seq_nat (args_len a))
         | _ => []
         end) (root_phrases p) ++
-      flat_map (fun i => map (SRoot (pi_id i)) (sub_candidates p)) (root_phrases p) ++
+      flat_map (fun i => map (SRoot (pi_id i)) (sub_candidates p)) (value_root_phrases p) ++
       flat_map (call_candidates p) (walk_program p)
   | FMissingAssoc =>
       flat_map (fun i =>
